@@ -124,6 +124,26 @@ def e2e_pair(q, p, rows, declared="hour"):
     return routed, rr, rb, sql_r
 
 
+def edited_rollup(q, p1, p2, rows, how):
+    """history: a rollup declared at p1 answers a query (whatever is remembered is remembered now), then its granularity is edited to p2 -- in place, or by
+    replacing it with model_copy(update=...) as configuration reloads do -- and the table rebuilt; the same query again.  Returns (routed, routed_rows, base_rows)."""
+    layer = build_layer(p1, rows)
+    kw = dict(metrics=["ev.total", "ev.n"], dimensions=["ev.ts__" + q])
+    layer.compile(use_preaggregations=True, **kw)
+    model = layer.graph.models["ev"]
+    pre = model.pre_aggregations[0]
+    if how == "in_place":
+        pre.granularity = p2
+    else:
+        pre = pre.model_copy(update={"granularity": p2})
+        model.pre_aggregations[0] = pre
+    layer.conn.execute("drop table %s" % pre.get_table_name("ev"))
+    layer.conn.execute("create table %s as %s" % (pre.get_table_name("ev"), pre.generate_materialization_sql(model)))
+    sql_r = layer.compile(use_preaggregations=True, **kw)
+    sql_b = layer.compile(use_preaggregations=False, **kw)
+    return "ev_preagg_r" in sql_r, dbutil.canon_rows(layer.conn.execute(sql_r).fetchall()), dbutil.canon_rows(layer.conn.execute(sql_b).fetchall()), sql_r
+
+
 def exercise_shared_tables():
     """run the other code that reads the granularity tables (recommender over a query log with known and unknown granularity names,
     definition generation, the matcher's scoring through a routed compile) -- the compatibility function must be the same function
@@ -222,9 +242,28 @@ def run(c):
                                     {"kind": "e2e", "q": q, "p": p, "declared": declared, "rows": rows, "routed_sql": sql_r, "differing_rows": diff})
                 if len(c.samples) < 4 and routed and q != p:
                     c.samples.append({"query_granularity": q, "rollup_granularity": p, "routed": routed, "rows_equal": rr == rb, "n_base_rows": len(rows), "n_result_rows": len(rb)})
-    c.obligation("e2e: routed == unrouted rows for every routed pair (%d pair-runs, %d routed pairs)" % (e2e_cases, len(routed_pairs)),
+    # 5b. the rollup's granularity is edited after it has answered a query: the verdict must be the one for the NEW granularity
+    edits = 0
+    rows = e2e_rows(c.rng)
+    for p1 in NAMES:
+        for p2 in NAMES:
+            qs = [q for q in NAMES if py_compatible(q, p1) != py_compatible(q, p2)]
+            if c.tier == "quick":
+                qs = qs[:1] + qs[-1:] if (NAMES.index(p1) + NAMES.index(p2)) % 2 else qs[:1]
+            for q in dict.fromkeys(qs):
+                for how in ("in_place", "model_copy"):
+                    try:
+                        routed, rr, rb, sql_r = edited_rollup(q, p1, p2, rows, how)
+                    except Exception as e:
+                        c.violation("a query after the rollup's granularity was edited (%s -> %s, %s) fails: %s" % (p1, p2, how, str(e)[:120]), {"kind": "edited", "q": q, "p1": p1, "p2": p2, "how": how, "rows": rows})
+                        continue
+                    edits += 1
+                    if routed and rr != rb:
+                        c.violation("after the rollup's granularity was edited from %s to %s (%s), a query at %s is still answered from it and returns different rows than the base table" % (p1, p2, how, q),
+                                    {"kind": "edited", "q": q, "p1": p1, "p2": p2, "how": how, "rows": rows, "routed_sql": sql_r, "differing_rows": [x for x in rr if x not in rb][:3] + [x for x in rb if x not in rr][:3]})
+    c.obligation("e2e: routed == unrouted rows for every routed pair (%d pair-runs, %d routed pairs; %d runs after an edit of the rollup's granularity)" % (e2e_cases, len(routed_pairs), edits),
                  not c.violations, "correspondence")
-    evals += e2e_cases
+    evals += e2e_cases + edits
     # 6. if a proof obligation or the translator broke and nothing failed end to end: function-level search for a failing input
     if c.broken() and not c.violations:
         wit = [t for (_, t) in [(0, x) for x in edge_timestamps(random.Random(c.seed), 500)]]
@@ -251,6 +290,12 @@ def run(c):
                        "exhaustive": False})
 
 
+def replay_edited(r):
+    routed, rr, rb, _ = edited_rollup(r["q"], r["p1"], r["p2"], [tuple(x) for x in r["rows"]], r["how"])
+    print("routed:", routed, "equal:", rr == rb)
+    return 0 if (not routed or rr == rb) else 1
+
+
 def replay(path):
     body = json.load(open(path))
     r = body["replay"]
@@ -259,6 +304,8 @@ def replay(path):
         print("routed:", routed, "rows equal:", rr == rb)
         print(sql)
         return 1 if routed and rr != rb else 0
+    if r.get("kind") == "edited":
+        return replay_edited(r)
     if r.get("kind") == "history":
         b = py_compatible(r["q"], r["p"])
         exercise_shared_tables()
